@@ -387,6 +387,9 @@ fn emit(sink: &mut Sink, orig: &str, batches: &[Vec<EditSpec>], out: &Outcome, v
     let id = sink.case(term, desc(orig, batches), nontrivial);
     if verbose {
         println!("original  : {:?}", orig);
+        for (k, b) in batches.iter().enumerate() {
+            println!("batch {}   : {:?}", k, b.iter().map(|e| (e.s, e.e, e.w.as_str())).collect::<Vec<_>>());
+        }
         println!("statuses  : {:?} (0 ok, 1 err, 2 panic)", out.statuses);
         if let Some(d) = &out.dump {
             println!("current   : {:?}", d.cur);
